@@ -65,6 +65,11 @@ CHECKS = {
          "Sequences of up to 30 pool operations (fresh/conflicting/duplicate/invalid submissions, local bundling, peer blocks confirming pooled transactions, peer blocks spending one input of a multi-input pooled transaction, rejected blocks, reorganising side chains) are interpreted against one node; after each step the pool must be conflict-free, every pooled transaction valid on the current ledger, the cached routing work exact, bundling all-or-nothing; at the end every spendable output not referenced by the pool must be spendable through the pool.",
          "Staking is off (the wallet's stake selection is not in scope here). Pool admission of catalogue edits is C01's subject; here only consistency is asserted.",
          "DESIGN.md §3 C14"),
+ "C19": ("exploration",
+         "stateful model-based testing of the wallet against the independent reference ledger: generated sequences of payments, wallet-built spends, inclusion/omission, empty-block runs and unwinding side chains; invariants after every step",
+         "After each of up to 30 generated operations the wallet's balance must equal the sum of its unspent slips, unspent must be a subset of slips, and - while no reorganisation has happened - the unspent set must equal the reference ledger's spendable in-window outputs of the wallet key minus inputs committed to pending built transactions; every transaction built by Transaction::create must have no repeated input, outputs <= inputs and be valid per the reference ledger on the ledger it was built on (also after reorganisations).",
+         "Staking slips and NFT groups are not generated. Exact set equality is only asserted on reorg-free histories, as the statement says.",
+         "DESIGN.md §3 C19"),
 }
 NOT_YET = {}
 
